@@ -12,12 +12,12 @@
 #include <string.h>
 #include <stdlib.h>
 
-enum { Z_FILL = 1, Z_SORT, Z_SEARCH, Z_FIND, Z_REVERSE, Z_ADVSORT, Z_VSEARCH, Z_VREVERSE };
+enum { Z_FILL = 1, Z_SORT, Z_SEARCH, Z_FIND, Z_REVERSE, Z_ADVSORT, Z_VSEARCH, Z_VREVERSE, Z_VSORT };
 
 static const char *z_opname(int k)
 {
     switch (k) {
-    case Z_FILL: return "fill"; case Z_SORT: return "sort"; case Z_SEARCH: return "search"; case Z_FIND: return "find"; case Z_REVERSE: return "reverse"; case Z_ADVSORT: return "adversary-sort"; case Z_VSEARCH: return "search"; case Z_VREVERSE: return "reverse";
+    case Z_FILL: return "fill"; case Z_SORT: return "sort"; case Z_SEARCH: return "search"; case Z_FIND: return "find"; case Z_REVERSE: return "reverse"; case Z_ADVSORT: return "adversary-sort"; case Z_VSEARCH: return "search"; case Z_VREVERSE: return "reverse"; case Z_VSORT: return "sort";
     }
     return "?";
 }
@@ -157,6 +157,46 @@ static void vswap(void *a, void *b, void *t, size_t len)
         if (!(y == vbase + vswaps * es && x == vbase + (vcount - 1 - vswaps) * es)) { vbad = 5; vbad_at = vswaps; return; }
     }
     vswaps++;
+}
+
+/* the first few thousand steps of a sort over a virtual array of 2^31 ... 2^40 elements: the values live in a sparse map (an
+ * element that was never exchanged holds a function of its index), so the comparison function is consistent and a correct
+ * sort never leaves the array; every address handed to the callbacks must be an element or the scratch element. After
+ * VS_LIMIT callbacks the run leaves the sort through the abort trap. */
+#define VS_LIMIT 4000
+#define VS_TAB 16384
+static uint64_t vs_key[VS_TAB], vs_val[VS_TAB]; static unsigned char vs_used[VS_TAB];
+static uint64_t vs_scratch_val; static unsigned vs_calls, vs_pat; static int vs_bailed;
+static uint64_t vs_init(uint64_t i) { uint64_t x = i; return vs_pat == 0 ? i : vs_pat == 1 ? vcount - 1 - i : splitmix64(&x) >> 8; }
+static unsigned vs_slot(uint64_t i) { unsigned h = (unsigned)((i * 0x9e3779b97f4a7c15ull) >> 50) % VS_TAB; while (vs_used[h] && vs_key[h] != i) h = (h + 1) % VS_TAB; return h; }
+static uint64_t vs_get(uint64_t i) { unsigned h = vs_slot(i); return vs_used[h] ? vs_val[h] : vs_init(i); }
+static void vs_put(uint64_t i, uint64_t v) { unsigned h = vs_slot(i); vs_used[h] = 1; vs_key[h] = i; vs_val[h] = v; }
+static int vs_index(const void *p, uint64_t *idx)
+{
+    uintptr_t q = (uintptr_t)p;
+    if (p == (const void *)scratch) return 2;
+    if (q < vbase || q >= vbase + vcount * es || (q - vbase) % es) { if (!vbad) { vbad = 3; vbad_at = (uint64_t)q; } return 0; }
+    *idx = (q - vbase) / es;
+    return 1;
+}
+static void vs_step(void) { if (++vs_calls > VS_LIMIT && !vs_bailed) { vs_bailed = 1; abort(); } }
+static int vsort_cmp(const void *a, const void *b, void *priv)
+{
+    uint64_t i = 0, j = 0, x, y; int ka = vs_index(a, &i), kb = vs_index(b, &j);
+    (void)priv;
+    if (!ka || !kb) { vs_bailed = 1; abort(); }
+    x = ka == 2 ? vs_scratch_val : vs_get(i); y = kb == 2 ? vs_scratch_val : vs_get(j);
+    vs_step();
+    return (x > y) - (x < y);
+}
+static void vsort_swap(void *a, void *b, void *t, size_t len)
+{
+    uint64_t i = 0, j = 0, x, y; int ka = vs_index(a, &i), kb = vs_index(b, &j);
+    if (!ka || !kb || len != es || (t != NULL && t != (void *)scratch)) { if (!vbad) { vbad = 5; vbad_at = vs_calls; } vs_bailed = 1; abort(); }
+    x = ka == 2 ? vs_scratch_val : vs_get(i); y = kb == 2 ? vs_scratch_val : vs_get(j);
+    if (ka == 2) vs_scratch_val = y; else vs_put(i, y);
+    if (kb == 2) vs_scratch_val = x; else vs_put(j, x);
+    vs_step();
 }
 
 static void check_same_multiset(const char *what)
@@ -348,6 +388,24 @@ static void z_exec(const plan_t *p)
             EVT("vsearch", vcount, target, (uint64_t)sres);
             break;
         }
+        case Z_VSORT: {
+            static const uint64_t counts[] = { ((uint64_t)1 << 32) + 6, ((uint64_t)1 << 33) + 2, ((uint64_t)1 << 31) + 5, ((uint64_t)3 << 31) + 1, ((uint64_t)1 << 32) - 1, ((uint64_t)1 << 40) + 3, ((uint64_t)1 << 31) - 1, (uint64_t)1 << 32 };
+            static const int valgos[] = { CSTL_SORT_ALGORITHM_HEAP, CSTL_SORT_ALGORITHM_QUICK, CSTL_SORT_ALGORITHM_QUICK_R, CSTL_SORT_ALGORITHM_QUICK_M, 9 };
+            static const char *vnames[] = { "heap", "quick", "quick-random", "quick-median3", "selector-9" };
+            int ai = (int)(o->a[1] % 5);
+            vcount = counts[o->a[0] % 8]; vbase = (uintptr_t)0x10000000u * 16;
+            if (vcount > (UINT64_MAX - vbase - 4096) / es) vcount = (UINT64_MAX - vbase - 4096) / es;
+            memset(vs_used, 0, sizeof vs_used); vs_calls = 0; vs_bailed = 0; vs_scratch_val = 0; vs_pat = (unsigned)(o->a[2] % 3); vbad = 0;
+            algoname = vnames[ai]; g_cur_ctx = "virtual-sort-first-steps";
+            TRY(cstl_raw_array_sort((void *)vbase, (size_t)vcount, es, vsort_cmp, NULL, vsort_swap, scratch, (cstl_sort_algorithm_t)valgos[ai]));
+            if (vbad == 3) VIOL("compare_foreign_pointer", "%s sort of %llu elements of %zu bytes handed a callback the address %#llx, which is neither an element nor the scratch element (step %u)", algoname, (unsigned long long)vcount, es, (unsigned long long)vbad_at, vs_calls);
+            if (vbad) VIOL("swap_arguments", "%s sort of %llu elements: the exchange callback got a wrong length or scratch pointer (step %u)", algoname, (unsigned long long)vcount, vs_calls);
+            if (g_aborted && !vs_bailed) VIOL(g_aborted == 2 ? "assert" : "abort", "%s sort of %llu virtual elements aborted", algoname, (unsigned long long)vcount);
+            if (!vs_bailed) VIOL("sort_too_short", "%s sort of %llu elements returned after %u callbacks", algoname, (unsigned long long)vcount, vs_calls);
+            PROBE("virtual_sort_first_steps");
+            EVT("vsort", vcount, ai, vs_calls);
+            break;
+        }
         case Z_VREVERSE: {
             /* costs count/2 callback invocations: sizes just above 2^31 only, and rarely */
             static const uint64_t counts[] = { ((uint64_t)1 << 31) + 1, ((uint64_t)1 << 31) + 2, ((uint64_t)1 << 31) + 5, 40000000 };
@@ -450,6 +508,7 @@ static void z_gen(prng_t *r, int mode, plan_t *p)
         if (g_gen_index % 2 == 0) p->cfg[CF_ES] = 1 + (g_gen_index / 2) % 3;      /* small elements: only these allow counts beyond 2^62 */
         for (j = 0; j < nq; j++) { op_t *s = plan_add(p, Z_VSEARCH); s->a[0] = prng_below(r, 14); s->a[1] = prng_below(r, 6); s->a[2] = prng_next(r) >> 8; }
         if (prng_chance(r, 1, 20)) { op_t *s = plan_add(p, Z_VREVERSE); s->a[0] = prng_below(r, 4); }
+        { int nv = 1 + (int)prng_below(r, 3); for (j = 0; j < nv; j++) { op_t *s = plan_add(p, Z_VSORT); s->a[0] = prng_below(r, 8); s->a[1] = prng_below(r, 5); s->a[2] = prng_below(r, 3); } }
         return;
     }
     if (!huge && prng_chance(r, 1, 12)) {
